@@ -1,4 +1,5 @@
 import Hive.Proofs.StreamInPlace
+import Hive.Proofs.StreamPeekC01
 import Hive.Gen.C01c_Facts
 import Hive.Spec.DeserFacts
 /-!
@@ -204,5 +205,38 @@ the bytes: regression statement about the model of the old code. -/
 theorem C01_stream_old_single_read_witness :
     (readBytesOld 3 ⟨[1, 2, 3], [1, 1, 1]⟩).1 = .err ∧ (readBytes 3 ⟨[1, 2, 3], [1, 1, 1]⟩).1 = some [1, 2, 3] := by
   decide
+
+/-! ## `PeekSize` and `ReadObjectFromReader` (round 6) -/
+
+/-- `PeekSize` on what a sized writer call (`WriteBytesWithSize`, `WriteObjectWithSize`, `WriteCollection`) wrote,
+through any chunking, with any tail: it reports the size that was written (payload length / element count) and the
+reader still holds everything (`PeekSize` seeks back). -/
+theorem C01_stream_peek_written (op : WOp) (e tail : Bytes) (chunks : List Nat) (lp : LP) (n : Nat)
+    (he : encOp op = some e) (hs : op.sized = some (lp, n)) :
+    ∃ chunks', runOp (.peek lp) ⟨e ++ tail, chunks⟩ = ⟨.ok, ⟨e ++ tail, chunks'⟩, [.size n], {}⟩ :=
+  peek_written op e tail chunks lp n he hs
+
+/-- `PeekSize`, then the mirrored reader call, any chunking: the size, then exactly the written values; exactly the
+written bytes are consumed. -/
+theorem C01_stream_peek_then_read_any_chunking (op : WOp) (e tail : Bytes) (chunks : List Nat) (lp : LP) (n : Nat)
+    (he : encOp op = some e) (hs : op.sized = some (lp, n)) (hw : op.wf) :
+    ∃ chunks' c, runProg (.cons (.peek lp) (.cons (readOf1 op) .nil)) ⟨e ++ tail, chunks⟩ =
+      ⟨.ok, ⟨tail, chunks'⟩, .size n :: valsOf1 op, c⟩ :=
+  peek_then_read op e tail chunks lp n he hs hw
+
+example : (WOp.coll .u16 (.bws .u8) [[1, 2], [3]]).sized = some (.u16, 2) ∧
+    encOp (.coll .u16 (.bws .u8) [[1, 2], [3]]) = some [2, 0, 2, 1, 2, 1, 3] ∧ (WOp.coll .u16 (.bws .u8) [[1, 2], [3]]).wf := by
+  refine ⟨rfl, by decide, ?_⟩
+  simp [WOp.wf]
+
+/-- `ReadObjectFromReader`: a whole mirrored reader program run inside the callback, any chunking — the written
+values, exactly the written bytes. -/
+theorem C01_stream_sub_any_chunking (ops : List WOp) (bb : BB) (hrun : runW ops ⟨[], 0⟩ = some bb)
+    (hw : ∀ op ∈ ops, op.wf) (tail : Bytes) (chunks : List Nat) :
+    (runOp (.sub (readOf ops)) ⟨bb.buf ++ tail, chunks⟩).res = .ok ∧
+    (runOp (.sub (readOf ops)) ⟨bb.buf ++ tail, chunks⟩).vals = valsOf ops ∧
+    (runOp (.sub (readOf ops)) ⟨bb.buf ++ tail, chunks⟩).rd.rest = tail := by
+  rw [sub_eq]
+  exact C01_stream_any_chunking ops bb hrun hw tail chunks
 
 end Hive.Stream
